@@ -9,7 +9,7 @@
    counterexamples; it is tested by the correspondence run against the reference
    formatter of DigitModelSpec.v, not proved. *)
 From Coq Require Import NArith ZArith List Bool.
-From Qv Require Import gen.Tables_digit DigitModel DigitModelSpec DigitProofsInt DigitProofsReal.
+From Qv Require Import gen.Tables_digit DigitModel DigitModelSpec DigitProofsInt DigitProofsReal DigitProofsSafety.
 Import ListNotations.
 Local Open Scope N_scope.
 
@@ -80,3 +80,47 @@ Print Assumptions c10_repaired_cases.
 Theorem c10_real_partial : sample_ok = true.
 Proof. exact c10_real_partial_sample. Qed.
 Print Assumptions c10_real_partial.
+
+(* ================= Phase 3: memory safety of the carry / rounding helpers ================= *)
+(* the full statement -- NOT proved; 0 model errors in every correspondence run (> 500k cases) *)
+Definition c10_no_model_error : Prop :=
+  forall bits prec fmt, prec <= 40 -> fmt <= 2 ->
+    (bits < 2 ^ 64 -> exists t, real_to_string finfo_double [] bits prec fmt = Ok t)
+    /\ (bits < 2 ^ 32 -> exists t, real_to_string finfo_float [] bits prec fmt = Ok t).
+
+(* Digit::roundStringNumber, for ANY stream contents and ANY index inside the stream (D33 was here):
+   no access outside; the returned index is inside; the stream keeps its length or grows by the one
+   appended carry digit, and then the index is that digit; a carry ends on the leading digit *)
+Theorem c10_round_helper_safe : forall buf started_at index ru,
+  index < blen buf -> blen buf < 2 ^ 32 ->
+  exists b i p, round_string_number buf started_at index ru = Ok (b, i, p)
+    /\ index < i /\ i <= blen b
+    /\ (blen b = blen buf \/ (blen b = blen buf + 1 /\ p = true /\ i = blen buf))
+    /\ (p = true -> blen b <= i + 1).
+Proof. exact round_string_number_safe. Qed.
+Print Assumptions c10_round_helper_safe.
+
+(* the give-back of integer zeros (D48 was here): without a carry it always stays inside the stream
+   and ends exactly at the decimal point *)
+Theorem c10_restore_zeros_no_carry_safe : forall buf dot_index index nl fl,
+  dot_index <= index -> index <= blen buf -> blen buf <= 100000 ->
+  exists b, restore_zeros buf dot_index index nl fl false = Ok (b, dot_index) /\ blen b = blen buf.
+Proof. exact restore_zeros_no_carry_safe. Qed.
+Print Assumptions c10_restore_zeros_no_carry_safe.
+
+Theorem c10_restore_zeros_carry_safe : forall buf dot_index index nl fl,
+  fl <= nl -> nl - fl <= index -> index <= blen buf -> blen buf <= 100000 -> nl <= 100000 ->
+  exists b, restore_zeros buf dot_index index nl fl true = Ok (b, index - (nl - fl)) /\ blen b = blen buf.
+Proof. exact restore_zeros_carry_safe. Qed.
+Print Assumptions c10_restore_zeros_carry_safe.
+
+(* the zero / nine scans never read outside *)
+Theorem c10_skip_scans_safe : forall fuel buf index,
+  blen buf <= index + N.of_nat fuel -> fuel <> O ->
+  (exists pos, skip_zeros fuel buf index = Ok pos /\ index <= pos /\ (pos = index \/ pos < blen buf))
+  /\ (exists pos, skip_nines fuel buf index = Ok pos /\ index <= pos /\ (pos = index \/ pos < blen buf)).
+Proof.
+  intros fuel buf index H1 H2. split; [apply skip_zeros_safe; assumption|].
+  destruct (skip_nines_safe fuel buf index H1 H2) as [pos [A [B [C _]]]]. exists pos. auto.
+Qed.
+Print Assumptions c10_skip_scans_safe.
